@@ -251,7 +251,7 @@ pub fn judge(case: &Case, l: &mut Local) {
     }
     verif::set_budget(200_000);
     let r = guarded(|| s.mesh.section(&s.plane, None).map_err(|e| e.to_string()));
-    verif::set_budget(u64::MAX);
+    reset_budget();
     let curves = match r {
         Err(e) => {
             l.check("section returns", if e.contains("VERIF_BUDGET") { "budget" } else { "panic" }, false, mk, || e.clone());
@@ -324,6 +324,43 @@ pub fn judge(case: &Case, l: &mut Local) {
         }
         if ref_segments == 0 {
             l.check("no curves when the plane misses the mesh", "", curves.is_empty(), mk, || format!("{} curves", curves.len()));
+        }
+    }
+
+    // the optional tolerance is the *curve* tolerance of the result (vertices closer than it are merged);
+    // it must not move the cut: every vertex still lies on the plane and on the surface, and nothing
+    // longer than the merged pieces is lost
+    for t in [5e-3, 0.05] {
+        l.eval();
+        verif::set_budget(200_000);
+        let rc = guarded(|| s.mesh.section(&s.plane, Some(t)).map_err(|e| e.to_string()));
+        reset_budget();
+        match rc {
+            Ok(Ok(coarse)) => {
+                let mut on_plane = true;
+                let mut on_surface = true;
+                let mut len = 0.0;
+                for c in coarse.iter() {
+                    len += c.length();
+                    for p in c.points() {
+                        on_plane &= s.plane.signed_distance_to_point(p).abs() <= 2e-6;
+                        on_surface &= mesh_dist(&s.v, &s.f, p) <= 2e-6;
+                    }
+                }
+                l.bucket("section with a coarse curve tolerance");
+                l.outcome(hash_of(&("coarse", coarse.len(), curves.len())));
+                l.check("with a coarse curve tolerance every section vertex still lies on the plane and on the surface", "", on_plane && on_surface, mk, || format!("tol {}: on plane {} on surface {}", t, on_plane, on_surface));
+                let slack = 2.0 * t * (nseg + 2 * curves.len()) as f64 + 1e-6;
+                l.check("a coarse curve tolerance loses at most the merged pieces", "", coarse.len() <= curves.len() && len <= tot_len + 1e-6 && len >= tot_len - slack, mk, || {
+                    format!("tol {}: {} curves of total length {} against {} curves of length {} (allowed loss {})", t, coarse.len(), len, curves.len(), tot_len, slack)
+                });
+            }
+            Ok(Err(e)) => {
+                l.check("section returns", "err", false, mk, || e.clone());
+            }
+            Err(e) => {
+                l.check("section returns", if e.contains("VERIF_BUDGET") { "budget" } else { "panic" }, false, mk, || e.clone());
+            }
         }
     }
 
@@ -434,42 +471,85 @@ pub fn cases(tier: Tier) -> Vec<Case> {
     out
 }
 
+fn commute_groups() -> Vec<(String, usize, f64)> {
+    let nn = normals().len();
+    CLOSED.iter().flat_map(|m| (0..nn).flat_map(move |n| FRACS.iter().map(move |f| (m.to_string(), n, *f)))).collect()
+}
+
+fn judge_commute(g: &(String, usize, f64), poses: usize, l: &mut Local) {
+    let (m, n, f) = g;
+    let base = summary(&Case { mesh: m.clone(), pose: 0, normal: *n, frac: *f, force: false });
+    for pose in 1..poses {
+        l.eval();
+        let c = Case { mesh: m.clone(), pose, normal: *n, frac: *f, force: false };
+        let got = summary(&c);
+        let s = setup(&c);
+        if s.sd.iter().any(|x| x.abs() < 1e-5) {
+            l.gray("degenerate probe in the commutation clause");
+            continue;
+        }
+        l.bucket("section under rigid motion");
+        let ok = match (base, got) {
+            (Some(a), Some(b)) => a.0 == b.0 && (a.1 - b.1).abs() <= 1e-6 * (1.0 + a.1),
+            (None, None) => true,
+            _ => false,
+        };
+        l.check("sectioning commutes with rigid motion of mesh and plane together", "", ok, || serde_json::to_value(&c).unwrap(), || format!("{:?} vs {:?}", base, got));
+    }
+}
+
+fn forced_cases(tier: Tier) -> Vec<Case> {
+    cases(tier).iter().filter(|c| OPEN.contains(&c.mesh.as_str())).map(|c| Case { force: true, ..c.clone() }).collect()
+}
+
+/// Worker entry of the isolated sweeps: `vcheck worker-range C13 <tier> <label> <start> <end>`
+pub fn worker_range(tier: Tier, label: &str, start: usize, end: usize) -> i32 {
+    match label {
+        "main" => {
+            let cs = cases(tier);
+            isolated_worker(start, end.min(cs.len()), |i, l| judge(&cs[i], l))
+        }
+        "forced" => {
+            let cs = forced_cases(tier);
+            isolated_worker(start, end.min(cs.len()), |i, l| judge(&cs[i], l))
+        }
+        "commute" => {
+            let gs = commute_groups();
+            let poses = tier.pick(3, 5);
+            isolated_worker(start, end.min(gs.len()), |i, l| judge_commute(&gs[i], poses, l))
+        }
+        _ => 2,
+    }
+}
+
+const WORKER_MEM_KB: u64 = 3_000_000;
+const ITEM_TIMEOUT_S: u64 = 30;
+
+/// Runs one of the three sweeps in memory-limited worker processes; an item that takes its worker down
+/// (abort on allocation failure, kill by the watchdog) is a violation of "section returns"
+fn isolated(tier: Tier, label: &str, n: usize, case_of: &dyn Fn(usize) -> Val) -> Local {
+    let args = vec!["worker-range".to_string(), "C13".to_string(), tier.name().to_string(), label.to_string()];
+    let (mut l, cas) = sweep_isolated(&args, n, 128, WORKER_MEM_KB, ITEM_TIMEOUT_S);
+    for c in cas {
+        l.eval();
+        l.check("section and split return", "worker lost", false, || case_of(c.item), || c.what.clone());
+    }
+    l
+}
+
 pub fn run(tier: Tier) -> i32 {
     let mut cx = Ctx::new("C13", tier, "exploration");
-    cx.rule = "meshes: 3 boxes, 3- and 6-gon prisms, capped 6- and 16-gon cylinders, octahedral spheres (1 and 2 subdivisions), 8x6 torus, tetrahedron (watertight) and open tube, quad, 4 height fields x 3 (thorough 5) poses x 32 plane normals (26 lattice + 6 skew) x 6 offset fractions (-0.1 .. 1.1); each (mesh, plane) pair is classified by a reference computation before the call: pairs whose section polyline would be open (a boundary edge straddles the plane) form the open-section class, probed by 3 representatives in subprocesses limited to 2 GB of address space with a 20 s watchdog; all other pairs run in-process. distinct = distinct (mesh, pose, plane) cases".into();
-    cx.bounds = json!({"meshes": CLOSED.len() + OPEN.len(), "poses": tier.pick(3, 5), "normals": normals().len(), "fractions": FRACS});
-    cx.require(&["plane nipping a corner or shaving a sliver", "plane crossing the mesh", "plane missing the mesh", "plane through a vertex (degenerate probe)", "open-section class (not executed in-process)"]);
+    cx.rule = "meshes: 3 boxes, 3- and 6-gon prisms, capped 6- and 16-gon cylinders, octahedral spheres (1 and 2 subdivisions), 8x6 torus, tetrahedron (watertight) and open tube, quad, 4 height fields x 3 (thorough 5) poses x 32 plane normals (26 lattice + 6 skew) x offset fractions (-0.1 .. 1.1 and absolute offsets just off a vertex) x curve tolerance {default, 5e-3, 0.05}; each (mesh, plane) pair is classified by a reference computation before the call: pairs whose section polyline would be open (a boundary edge straddles the plane) form the open-section class, probed by 3 representatives; every sweep runs in worker processes limited to 3 GB of address space with a 30 s per-case watchdog, so that an abort or runaway allocation inside the library or parry is reported for the case in progress instead of ending the check. distinct = distinct (mesh, pose, plane) cases".into();
+    cx.bounds = json!({"meshes": CLOSED.len() + OPEN.len(), "poses": tier.pick(3, 5), "normals": normals().len(), "fractions": FRACS, "worker_address_space_kb": WORKER_MEM_KB, "per_case_watchdog_s": ITEM_TIMEOUT_S});
+    cx.require(&["plane nipping a corner or shaving a sliver", "plane crossing the mesh", "plane missing the mesh", "plane through a vertex (degenerate probe)", "open-section class (not executed in-process)", "section with a coarse curve tolerance"]);
     cx.assume("planes within 1e-5 of a mesh vertex are degenerate probes: only 'returns, vertices on the plane and on the surface' is judged there");
     let cs = cases(tier);
-    let l = sweep(&cs, judge);
+    let l = isolated(tier, "main", cs.len(), &|i| serde_json::to_value(&cs[i]).unwrap());
     cx.absorb(l);
 
     // commutation with rigid motion: every pose gives the same curve count and total length
-    let mut l2 = Local::new();
-    let poses = tier.pick(3, 5);
-    let nn = normals().len();
-    let groups: Vec<(String, usize, f64)> = CLOSED.iter().flat_map(|m| (0..nn).flat_map(move |n| FRACS.iter().map(move |f| (m.to_string(), n, *f)))).collect();
-    let res = sweep(&groups, |(m, n, f), l| {
-        let base = summary(&Case { mesh: m.clone(), pose: 0, normal: *n, frac: *f, force: false });
-        for pose in 1..poses {
-            l.eval();
-            let c = Case { mesh: m.clone(), pose, normal: *n, frac: *f, force: false };
-            let got = summary(&c);
-            let s = setup(&c);
-            if s.sd.iter().any(|x| x.abs() < 1e-5) {
-                l.gray("degenerate probe in the commutation clause");
-                continue;
-            }
-            l.bucket("section under rigid motion");
-            let ok = match (base, got) {
-                (Some(a), Some(b)) => a.0 == b.0 && (a.1 - b.1).abs() <= 1e-6 * (1.0 + a.1),
-                (None, None) => true,
-                _ => false,
-            };
-            l.check("sectioning commutes with rigid motion of mesh and plane together", "", ok, || serde_json::to_value(&c).unwrap(), || format!("{:?} vs {:?}", base, got));
-        }
-    });
-    l2.merge(res);
+    let groups = commute_groups();
+    let l2 = isolated(tier, "commute", groups.len(), &|i| json!({"mesh": groups[i].0, "pose": 0, "normal": groups[i].1, "frac": groups[i].2, "force": false}));
     cx.absorb(l2);
 
     // open-section representatives in memory-limited subprocesses
@@ -490,8 +570,8 @@ pub fn run(tier: Tier) -> i32 {
     cx.extra.insert("open_class_representatives_returned".into(), json!(all_returned));
     if all_returned {
         // the class is safe to execute: judge every member in-process
-        let forced: Vec<Case> = cs.iter().filter(|c| OPEN.contains(&c.mesh.as_str())).map(|c| Case { force: true, ..c.clone() }).collect();
-        let l4 = sweep(&forced, judge);
+        let forced = forced_cases(tier);
+        let l4 = isolated(tier, "forced", forced.len(), &|i| serde_json::to_value(&forced[i]).unwrap());
         cx.absorb(l4);
     }
     cx.finish()
@@ -504,7 +584,11 @@ pub fn replay(case: &Val) -> Local {
         let r = probe(&c);
         l.check("section returns", "open-result", r.is_ok(), || case.clone(), || r.clone().err().unwrap_or_default());
     } else {
-        judge(&c, &mut l);
+        // first in a memory-limited subprocess (the case may be one that took its worker down), then here
+        let r = probe(&c);
+        if l.check("section and split return", "worker lost", r.is_ok(), || case.clone(), || r.clone().err().unwrap_or_default()) {
+            judge(&c, &mut l);
+        }
     }
     l
 }
